@@ -213,7 +213,14 @@ impl<'a, 'c> G<'a, 'c> {
                 }
             }
             2 => (Expr::Real(*self.c.pick(&REALS)), Ty::Num),
-            _ => (Expr::Str(self.c.pick(&STRS).to_string()), Ty::Str),
+            _ => {
+                if self.c.chance(10) {
+                    // longer than any fixed-size read window an interpreter might use
+                    (Expr::Str("L".repeat(250 + self.c.draw(120))), Ty::Str)
+                } else {
+                    (Expr::Str(self.c.pick(&STRS).to_string()), Ty::Str)
+                }
+            }
         }
     }
 
